@@ -7,6 +7,7 @@ import (
 	"net/http"
 	"net/url"
 	"path"
+	"regexp"
 	"sort"
 	"strings"
 
@@ -121,6 +122,8 @@ func resolveSet(base *url.URL, r string) []string {
 	return out
 }
 
+var collectionPointer = regexp.MustCompile(`^/components/[A-Za-z]+$`)
+
 type namedReader struct {
 	*bytes.Reader
 	name string
@@ -204,6 +207,11 @@ func (Sim) Run(raw json.RawMessage, prop string, keep bool) (res simfw.Result) {
 		refsOf[locOf[i]] = refs
 		baseOf[locOf[i]] = urlOf[i]
 	}
+	// (the references of the stored documents as they are: what a *target* is, for the C02 clauses)
+	refsTrue := map[string][]string{}
+	for l, refs := range refsOf {
+		refsTrue[l] = append([]string{}, refs...)
+	}
 	// a partial delivery (torn read, response cut short) may still parse: the references of what was
 	// delivered are references the loader legitimately follows
 	for _, f := range st.Faults {
@@ -229,36 +237,41 @@ func (Sim) Run(raw json.RawMessage, prop string, keep bool) (res simfw.Result) {
 	if rootHasLocation {
 		rootBase = urlOf[0]
 	}
-	J := map[string]bool{}
+	var rootRefs []string
+	collectRefs(s.Files[0].Doc, &rootRefs)
 	nrefs := 0
-	var queue []string
-	addFrom := func(base *url.URL, refs []string) {
-		for _, r := range refs {
-			nrefs++
-			for _, t := range resolveSet(base, r) {
-				if !J[t] {
-					J[t] = true
-					queue = append(queue, t)
+	closure := func(refsOf map[string][]string) map[string]bool {
+		J := map[string]bool{}
+		var queue []string
+		addFrom := func(base *url.URL, refs []string) {
+			for _, r := range refs {
+				nrefs++
+				for _, t := range resolveSet(base, r) {
+					if !J[t] {
+						J[t] = true
+						queue = append(queue, t)
+					}
 				}
 			}
 		}
-	}
-	var rootRefs []string
-	collectRefs(s.Files[0].Doc, &rootRefs)
-	if rootHasLocation {
-		J[rootLoc] = true
-	}
-	addFrom(rootBase, rootRefs)
-	for len(queue) > 0 {
-		l := queue[0]
-		queue = queue[1:]
-		if l == rootLoc && !rootHasLocation {
-			// the root's content reached through a reference to its storage location
+		if rootHasLocation {
+			J[rootLoc] = true
 		}
-		if refs, ok := refsOf[l]; ok {
-			addFrom(baseOf[l], refs)
+		addFrom(rootBase, rootRefs)
+		for len(queue) > 0 {
+			l := queue[0]
+			queue = queue[1:]
+			if refs, ok := refsOf[l]; ok {
+				addFrom(baseOf[l], refs)
+			}
 		}
+		return J
 	}
+	// JTrue: locations designated by references of the documents as stored (the targets of the C02 clauses);
+	// J: the same plus what partially delivered documents refer to (every read inside it is justified, C11)
+	JTrue := closure(refsTrue)
+	nrefs = 0
+	J := closure(refsOf)
 	st.Budget = 64 + 16*(1+nrefs)*(1+len(s.Files))
 
 	// ---- run the loader ------------------------------------------------------
@@ -270,11 +283,18 @@ func (Sim) Run(raw json.RawMessage, prop string, keep bool) (res simfw.Result) {
 		l := openapi3.NewLoader()
 		l.IsExternalRefsAllowed = s.External
 		if s.Reader == "func" {
-			l.ReadFromURIFunc = func(_ *openapi3.Loader, u *url.URL) ([]byte, error) { return st.ReadURL(u) }
+			l.ReadFromURIFunc = func(_ *openapi3.Loader, u *url.URL) ([]byte, error) {
+				data, err := st.ReadURL(u)
+				if err == simenv.ErrUnsupported {
+					return nil, openapi3.ErrURINotSupported // the caller's reader declines this location
+				}
+				return data, err
+			}
 		}
 		return l
 	}
-	if s.Reader != "func" {
+	{
+		// (also when a custom reader is configured: a read that goes around it is then seen, not lost on the real disk)
 		zzsimrt.ReadFileFunc = st.ReadFile
 		prevT := http.DefaultTransport
 		http.DefaultTransport = st
@@ -312,7 +332,16 @@ func (Sim) Run(raw json.RawMessage, prop string, keep bool) (res simfw.Result) {
 				doc, err = loader.LoadFromIoReader(namedReader{bytes.NewReader(content[0]), "/sim/" + s.Marker + "/upload.json"})
 			}
 		case "data_path_abs", "data_path_http":
-			doc, err = loader.LoadFromDataWithPath(content[0], urlOf[0])
+			if s.ViaResolveRefsIn {
+				// the caller unmarshals the document itself and asks the loader to resolve it at that location
+				doc = &openapi3.T{}
+				if err = doc.UnmarshalJSON(content[0]); err == nil {
+					err = loader.ResolveRefsIn(doc, urlOf[0])
+				}
+				res.Probe("root-through-resolve-refs-in")
+			} else {
+				doc, err = loader.LoadFromDataWithPath(content[0], urlOf[0])
+			}
 		case "file_rel", "file_abs":
 			doc, err = loader.LoadFromFile(urlOf[0].Path) // a file path, not a URL: no escaping
 		default:
@@ -356,12 +385,17 @@ func (Sim) Run(raw json.RawMessage, prop string, keep bool) (res simfw.Result) {
 			readSoFar[ev.Loc] = true
 			if ev.OK {
 				okRead[ev.Loc] = true
-			} else if _, seen := failedRead[ev.Loc]; !seen && (J[ev.Loc] || !s.External) {
+			} else if _, seen := failedRead[ev.Loc]; !seen && (JTrue[ev.Loc] || !s.External) {
 				// (only locations some reference designates are "targets" for the C02 clauses: a failed read of
 				// a location nothing refers to - known finding K1's wrong-base read - is C11's business)
 				failedRead[ev.Loc] = ev.Fault
 			}
 			isRoot := rootHasLocation && ev.Loc == rootLoc
+			if s.Reader == "func" && ev.Via != "func" {
+				// the caller configured its own reader: a read that goes around it (the default file / HTTP
+				// readers) is a read the caller never sanctioned, and what it yields is not "the target was read"
+				res.Violate("C02", "unreadable-target", "C02/"+sig("read-bypasses-configured-reader"), fmt.Sprintf("a ReadFromURIFunc is configured, yet the loader read %q via %s", ev.Loc, ev.Via))
+			}
 			switch {
 			case !s.External:
 				if !isRoot {
@@ -475,7 +509,8 @@ func (Sim) Run(raw json.RawMessage, prop string, keep bool) (res simfw.Result) {
 					if c, ok := st.Files[t]; ok {
 						known = true
 						var doc any
-						if json.Unmarshal(c, &doc) == nil && !pointerExists(doc, u.Fragment) {
+						if yaml.Unmarshal(c, &doc) == nil && (!pointerExists(doc, u.Fragment) || collectionPointer.MatchString(u.Fragment)) {
+							// (a pointer that stops at /components/<kind> names the whole collection: no object of the kind referred to)
 							missing = true
 						}
 					}
